@@ -629,7 +629,8 @@ func cexHistory(c *core.Ctx, t *core.Trace, cas int) error {
 
 // thresholds placed on and next to sizes that will really occur
 func pickSettings(rng *rand.Rand, base int) settings {
-	bufs := []int64{-1, 0, 1, int64(base), int64(base) + 1, int64(2 * base), int64(2*base) + 7, int64(3*base) + 40, 400, 1000, 1 << 20}
+	bufs := []int64{-1, 0, 1, int64(base), int64(base) + 1, int64(2 * base), int64(2*base) + 7, int64(3*base) + 40, int64(4 * base), int64(5*base) + 3,
+		200, 400, 1000, 1 << 20, 1 << 20}
 	waits := []int64{-5, 0, 1, 3, 8, 15}
 	zips := []int64{-1, 0, 1, int64(base) - 1, int64(base), int64(base) + 1, int64(2*base) + 3, 100, 101, 400, 1 << 20}
 	caps := []int64{-1, 0, 1, 2, 3, 6}
@@ -683,12 +684,19 @@ func gatedHistory(c *core.Ctx, t *core.Trace, cas int) error {
 	cur := s
 	qlen := 0 // records certainly still queued at most (upper bound kept by the harness for in-flight adds)
 	now := int64(1 + rng.Intn(3))
-	nops := 10 + rng.Intn(c.Pick(30, 60))
+	nops := 15 + rng.Intn(c.Pick(45, 90))
 	nrec := 0
 	stopped := false
 	for i := 0; i < nops && h.err == nil && h.parkedAt != ""; i++ {
-		switch k := rng.Intn(20); {
-		case k < 7 && !stopped: // add while the worker is held
+		switch k := rng.Intn(24); {
+		case k >= 20: // let the worker run several steps
+			for j := 0; j < 2+rng.Intn(4) && h.parkedAt != "" && h.err == nil; j++ {
+				if p := h.step(); p == "take" && qlen > 0 {
+					qlen--
+				}
+				h.peekLast(1)
+			}
+		case k < 5 && !stopped: // add while the worker is held
 			if rng.Intn(4) > 0 {
 				now += int64(rng.Intn(7))
 			} else if now > 3 && rng.Intn(3) == 0 {
@@ -697,7 +705,7 @@ func gatedHistory(c *core.Ctx, t *core.Trace, cas int) error {
 			h.add(h.mk(now, pickClen(rng)))
 			nrec++
 			qlen++
-		case k < 9 && !stopped && h.parkedAt == "poll" && (cur.qCap <= 0 || int64(qlen)+1 < cur.qCap):
+		case k < 7 && !stopped && h.parkedAt == "poll" && (cur.qCap <= 0 || int64(qlen)+1 < cur.qCap):
 			// add while the worker is inside its timed wait
 			now += int64(rng.Intn(5))
 			h.addInflight(h.mk(now, pickClen(rng)))
@@ -787,13 +795,16 @@ func defaultsHistory(c *core.Ctx, t *core.Trace, cas int) error {
 	h := newHist(c, t, "defaults", cas, false)
 	h.keepMode = 1
 	switch cas {
-	case 0: // queue of 1000; 5 s of record time; 64 KiB
+	case 0, 2: // 5 s of record time; (2) a queue of 1000
 		h.create("queue", false, settings{}, true)
 		if h.err != nil {
 			return h.err
 		}
-		n := c.Pick(1000, 1000)
-		for i := 0; i < n+1; i++ { // the last one does not fit into a queue of 1000
+		n := 7
+		if cas == 2 {
+			n = 1001 // the last one does not fit into a queue of 1000
+		}
+		for i := 0; i < n; i++ {
 			tm := int64(10)
 			if i == 3 {
 				tm = 5009 // 4999 after the first: not yet due
@@ -806,8 +817,7 @@ func defaultsHistory(c *core.Ctx, t *core.Trace, cas int) error {
 		for i := 0; i < 5; i++ {
 			h.runToPoll()
 		}
-		// what is left in the queue is small; now fill the buffer to one byte below 64 KiB ...
-		h.stop()
+		h.stop() // the rest is drained
 		h.finish(true)
 	case 1: // 64 KiB and compress-from-100, through Append and SendDirect
 		h.create("direct", false, settings{}, false)
@@ -916,16 +926,16 @@ func Run(c *core.Ctx) error {
 	if err := run("cex", 5, func(cas int) error { return cexHistory(c, tg, cas) }); err != nil {
 		return err
 	}
-	if err := run("gated", c.Pick(60, 600), func(cas int) error { return gatedHistory(c, tg, cas) }); err != nil {
+	if err := run("gated", c.Pick(120, 1000), func(cas int) error { return gatedHistory(c, tg, cas) }); err != nil {
 		return err
 	}
-	if err := run("direct", c.Pick(40, 400), func(cas int) error { return directHistory(c, tg, cas) }); err != nil {
+	if err := run("direct", c.Pick(60, 500), func(cas int) error { return directHistory(c, tg, cas) }); err != nil {
 		return err
 	}
-	if err := run("defaults", 2, func(cas int) error { return defaultsHistory(c, tg, cas) }); err != nil {
+	if err := run("defaults", c.Pick(2, 3), func(cas int) error { return defaultsHistory(c, tg, cas) }); err != nil {
 		return err
 	}
-	if err := run("free", c.Pick(12, 120), func(cas int) error { return freeHistory(c, tf, cas) }); err != nil {
+	if err := run("free", c.Pick(16, 150), func(cas int) error { return freeHistory(c, tf, cas) }); err != nil {
 		return err
 	}
 	return nil
